@@ -18,7 +18,8 @@ def lean_step(prop, tier):
     """returns dict(ok, build_ok, audit, forbidden, log)"""
     names, imports = common.theorem_listing(prop)
     ok_build, log = common.lake_build(['driver'] + imports)
-    forbidden = common.grep_forbidden()
+    common.lake_build(['validcheck'])      # optional helper (hypothesis statistics); its failure is not this property's problem
+    forbidden = common.grep_forbidden(imports)
     audit = common.audit_axioms(prop) if ok_build else {"theorems": [], "ok": False, "log": "build failed"}
     res = dict(build_ok=ok_build, forbidden=forbidden, audit=audit, log=log[-3000:] if not ok_build else "")
     res['leanchecker'] = None
